@@ -34,11 +34,13 @@ class Gen:
         self.shape_idx = {}
         self.used = set()     # (shape, slot)
 
-    def shape(self, mock='M', fn=F1, mk1='EQ', mk2='ANY', nwith=0, nse=0, seqar=0, tform='RT', tl=0, th=0, act=None, clauses=None):
+    def shape(self, mock='M', fn=F1, mk1='EQ', mk2='ANY', nwith=0, nse=0, seqar=0, tform='RT', tl=0, th=0, act=None, clauses=None, vform=False):
         if act is None:
             act = 'NONE' if (fn == V1 or tform == 'FORBID' or (tform in ('N', 'ATMOST') and tl == 0) or mock == 'W') else ('RETREF' if fn == R1 else ('RETCAP' if fn == CR1 else ('RETSTR' if fn == SV1 else 'RET')))
         if clauses is None:
             clauses = 'W' * nwith + ('Q' if seqar else '') + ('T' if tform not in ('DEFAULT', 'ALLOW', 'FORBID') else '') + 'S' * nse + ('A' if act != 'NONE' else '')
+        if vform and not clauses.startswith('v'):
+            clauses = 'v' + clauses   # the variadic macro form NAMED_xxx_CALL_V(obj, func, .CLAUSE(...) ...): a separate set of macros
         key = (MOCK[mock], fn, MK[mk1], MK[mk2], nwith, nse, seqar, TF[tform], tl, th, ACT[act], clauses)
         if key not in self.shape_idx:
             self.shape_idx[key] = len(self.shapes)
@@ -85,9 +87,10 @@ class Gen:
         var = 'm_s%d' % K
         macro = {TF['ALLOW']: 'NAMED_ALLOW_CALL', TF['FORBID']: 'NAMED_FORBID_CALL'}.get(tform, 'NAMED_REQUIRE_CALL')
         text = '%s.%s' % (var, callexpr)
-        chain = '%s(%s, %s)' % (macro, var, callexpr)
+        vform = clauses.startswith('v')
+        chain = '' if vform else '%s(%s, %s)' % (macro, var, callexpr)
         wi = si_ = 0
-        for c in clauses:
+        for c in clauses.lstrip('v'):
             if c == 'W':
                 chain += '.%s(cur()->hw(%d,%d,_1))' % ('WITH' if wi % 2 == 0 else 'LR_WITH', K, wi)
                 wi += 1
@@ -111,6 +114,8 @@ class Gen:
                 chain += {ACT['RET']: '.RETURN(cur()->hr(%d))' % K, ACT['RETREF']: '.LR_RETURN(cur()->hrr(%d))' % K,
                           ACT['THROW_INT']: '.THROW(cur()->ht(%d))' % K, ACT['THROW_STD']: '.THROW(cur()->hte(%d))' % K,
                           ACT['RETCAP']: '.RETURN(v_s%d)' % K, ACT['RETSTR']: '.RETURN(cur()->hstr(%d))' % K}[act]
+        if vform:
+            chain = '%s_V(%s, %s%s)' % (macro, var, callexpr, (', ' + chain) if chain else '')
         getter = 'pw->M_(op.obj)' if mock == MOCK['M'] else 'pw->MV_(op.obj)'
         if fn == CF1:
             getter = 'static_cast<const %s&>(%s)' % ('M' if mock == MOCK['M'] else 'MV', getter)   # the expectation is placed through a const reference: the const overload
@@ -407,6 +412,9 @@ def plans_C03(g, tier):
         pre.append([tested(0), allow(1, 'EQ')])       # under a newer ALLOW_CALL that claims argument 1 only
         pre.append([g.create(0, g.shape(fn=F1, mk1='ANY', tform='RT'), obj=0, lo=1, hi=2), tested(1)])  # two stacked bounded expectations (both can saturate)
         pre.append([tested(0, 'EQ')])                 # exact-value matcher: other arguments are no-match calls that name it
+        vtested = lambda slot, kw=kw, lo=lo, hi=hi: g.create(slot, g.shape(fn=F1, mk1='ANY', vform=True, **kw), obj=0, k1=1, lo=lo, hi=hi)
+        pre.append([vtested(0)])                      # the variadic macro form of the same expectation
+        pre.append([g.create(0, g.shape(fn=F1, mk1='ANY', tform='ALLOW', vform=True), obj=0, k1=1), vtested(1)])
         if tier != 'quick':
             pre.append([g.create(0, g.shape(fn=F1, mk1='ANY', tform='RT'), obj=0, lo=0, hi=1), tested(1), g.create(2, g.shape(fn=F1, mk1='EQ', tform='RT'), obj=0, k1=1, lo=1, hi=1)])
     # RT_TIMES(lo > hi): with and without a preceding IN_SEQUENCE
@@ -469,6 +477,9 @@ def c07_alphabet(g, slots):
         A.append(g.create(slot, g.shape(fn=F1, mk1='NE', tform='RT'), obj=0, k1=1, lo=0, hi=0))
         A.append(g.create(slot, g.shape(fn=F1, mk1='EQ', tform='RT', nse=1), obj=0, k1=2, lo=1, hi=1))
         A.append(g.create(slot, g.shape(fn=F2, mk1='EQ', mk2='ANY', tform='FORBID'), obj=0, k1=1))
+        A.append(g.create(slot, g.shape(fn=F1, mk1='ANY', tform='FORBID', nwith=1), obj=0, wmode=(2, 0, 0)))            # FORBID_CALL(...).WITH(_1 != 2)
+        A.append(g.create(slot, g.shape(fn=F1, mk1='EQ', tform='FORBID', vform=True), obj=0, k1=1))                     # the variadic macro forms
+        A.append(g.create(slot, g.shape(fn=F1, mk1='LT', tform='ALLOW', nse=1, vform=True), obj=0, k1=2))
         # sequenced allowing expectations: a callable-but-not-first-in-line newer expectation must not take a call from an older forbid
         A.append(g.create(slot, g.shape(fn=G1, mk1='ANY', tform='RT', seqar=1), obj=0, lo=1, hi=INF, s1=0))
         A.append(g.create(slot, g.shape(fn=F1, mk1='ANY', tform='RT', seqar=1, nse=1), obj=0, lo=0, hi=INF, s1=0))
@@ -528,6 +539,9 @@ def plans_C08(g, tier):
                                 sm = tuple(sv) + (0,) * (3 - s_)
                                 sh_shadow = shadow if fn == F1 else (shadow_v if fn == V1 else (shadow_r if fn == R1 else shadow_cr))
                                 pre.append([allow_g, sh_shadow, g.create(0, sh, obj=0, lo=1, hi=2, wmode=wm, semode=sm, actmode=am)])
+                                if w + s_ >= 1 and am == 0 and all(x != 3 for x in sv) and act in ('RET', 'NONE', 'THROW_INT'):
+                                    shv = g.shape(fn=fn, mk1='ANY', nwith=w, nse=s_, tform='RT', act=act, clauses=clauses, vform=True)
+                                    pre.append([allow_g, sh_shadow, g.create(0, shv, obj=0, lo=1, hi=2, wmode=wm, semode=sm, actmode=am)])
     alpha = [g.call(0, F1, 1), g.call(0, F1, 2), g.call(0, V1, 1), g.call(0, V1, 2), g.call(0, R1, 1), g.call(0, R1, 2), g.call(0, CR1, 1), g.call(0, CR1, 2)]
     # "a call that throws still counts as handled" also for the sequence bookkeeping, and after an earlier no-match report that named the expectation
     spre = []
